@@ -1,3 +1,4 @@
+from rtamt.semantics.arithmetic import saturating
 import math
 from rtamt.semantics.abstract_online_operation import AbstractOnlineOperation
 
@@ -10,5 +11,5 @@ class ExpOperation(AbstractOnlineOperation):
         pass
 
     def update(self, sample):
-        sample_result = math.exp(sample)
+        sample_result = saturating.exp(sample)
         return sample_result
